@@ -27,6 +27,10 @@ BIG_N = [255, 256, 257, 513]
 GUARD = 8
 
 
+GEOMETRY_HISTORY = [("fixed", 4), ("fixed", 13), ("fixed", 0), ("fixed", 5), ("name", 3), ("fixed", 1), ("name", 9)]
+GEOMETRY_HISTORY_BIG = [("fixed", 257), ("fixed", 3), ("name", 513), ("fixed", 256)]
+
+
 def describe(tier):
     return dict(
         rule="all well-formed kernel skeletons: file-scope prefix of 0-2 lines from {plain text, #define //only_for_context X, //include_file f for_context X, "
@@ -36,11 +40,13 @@ def describe(tier):
         "through ContextCpu; cuda through the real ContextCupy (block sizes 1, 2, 4 and default 256) and opencl through the real ContextPyopencl, devices "
         "replaced by host builds of the real specialised text. n in {0,1,2,3,5,8,9} (+ {255,256,257,513} with block 256). Oracle: each block's counter is "
         "exactly its increment count on [0,n) and 0 on a guard band beyond; restricted lines, defines and includes are active exactly on the named targets; "
-        "unannotated lines appear verbatim and in order in every specialised text; all targets agree.",
+        "unannotated lines appear verbatim and in order in every specialised text; all targets agree. Launch-geometry histories: on every built kernel "
+        "the thread count is then changed with set_n_threads through fixed numbers that grow and shrink (4, 13, 0, 5, 1; 257, 3, 256 with block 256) and back to "
+        "the argument name, with a call and the same oracle after every change.",
         bounds=dict(skeletons=len(list(skeletons(tier))), n=SMALL_N + BIG_N, cuda_block_sizes=[1, 2, 4, 256], guard_band=GUARD),
         assumptions=["statements outside vectorised blocks run once per work-item on GPU targets by design: only idempotent statements are placed there and they are compared for n >= 1",
                      "device compilers and schedulers are replaced by clang -x cl / g++ host builds driven sequentially"],
-        must_fire=["cpu_serial", "cpu_openmp", "cpu_openmp_auto", "cuda", "opencl", "passthrough"],
+        must_fire=["cpu_serial", "cpu_openmp", "cpu_openmp_auto", "cuda", "opencl", "passthrough", "set_n_threads"],
     )
 
 
@@ -256,10 +262,19 @@ def make_gpu_contexts(workdir):
     return cuda, ocl
 
 
-def kernel_descr(names):
+def built_fixed(i, bs):
+    """every second kernel of a shard is BUILT with a fixed thread count (and switched to the argument name after its first call)"""
+    return None if (i + _PARITY[0]) % 2 == 0 else (257 if bs == 256 else 5)
+
+
+_PARITY = [0]
+
+
+def kernel_descr(names, bs=None):
     import xobjects as xo
 
-    return {nm: xo.Kernel(args=[xo.Arg(xo.Int32, name="n"), xo.Arg(xo.Int32, pointer=True, name="c0"), xo.Arg(xo.Int32, pointer=True, name="c1"), xo.Arg(xo.Int32, pointer=True, name="flags")], n_threads="n") for nm in names}
+    return {nm: xo.Kernel(args=[xo.Arg(xo.Int32, name="n"), xo.Arg(xo.Int32, pointer=True, name="c0"), xo.Arg(xo.Int32, pointer=True, name="c1"), xo.Arg(xo.Int32, pointer=True, name="flags")],
+                          n_threads="n" if built_fixed(i, bs) is None else built_fixed(i, bs)) for i, nm in enumerate(names)}
 
 
 def shards(tier, seed):
@@ -353,25 +368,31 @@ def run_shard(sks, tier, seed):
             os.chdir(work)
             try:
                 if target.startswith("cpu"):
-                    ctx.add_kernels(sources=[Path(src_path)], kernels=kernel_descr(names), extra_compile_args=("-O0", "-w"), extra_link_args=())
+                    ctx.add_kernels(sources=[Path(src_path)], kernels=kernel_descr(names, bs), extra_compile_args=("-O0", "-w"), extra_link_args=())
                 else:
-                    ctx.add_kernels(sources=[Path(src_path)], kernels=kernel_descr(names))
+                    ctx.add_kernels(sources=[Path(src_path)], kernels=kernel_descr(names, bs))
             except Exception as e:
                 bad("C16.builds", "specialised-source-does-not-build", sks[0], "%s: %s" % (label, str(e)[-1500:]), target=target)
                 continue
             finally:
                 os.chdir(cwd)
             ns = (SMALL_N if bs in (None, 1, 2, 4) else []) + (BIG_N if bs in (None, 256) else [])
-            for nm in names:
+            for ki, nm in enumerate(names):
                 sk, exp = exps[nm]
                 kern = ctx.kernels[nm]
+                pre = [("built-fixed", built_fixed(ki, bs))] if built_fixed(ki, bs) is not None else []
                 if bs in (None, 1):
                     res.transitions += 1
                     res.events["passthrough"] += 1
                     p = passthrough(exp, kern.specialized_source)
                     if p:
                         bad("C16.passthrough", "unannotated-text-changed", sk, "%s: %s" % (label, p), target=target)
-                for n in ns:
+                for n in pre + list(ns):
+                    if isinstance(n, tuple):
+                        n = n[1]  # first call of a kernel built with this fixed thread count
+                    elif pre:
+                        getattr(ctx.kernels, nm).set_n_threads("n")
+                        pre = []
                     c0 = np.zeros(n + GUARD, dtype="i4")
                     c1 = np.zeros(n + GUARD, dtype="i4")
                     fl = np.zeros(8, dtype="i4")
@@ -390,6 +411,33 @@ def run_shard(sks, tier, seed):
                         bad("C16." + r[0], r[0], sk, r[1], target=target, n=n, block=bs)
                     else:
                         res.outcomes["ok:" + label] += 1
+                # launch-geometry histories: the thread count of a built kernel is changed between calls (fixed numbers that
+                # grow and shrink, then back to the name of the argument); every call must still run each index once
+                if bs in (None, 2, 256):
+                    disp = getattr(ctx.kernels, nm)
+                    hist = []
+                    for setting, n in GEOMETRY_HISTORY if bs != 256 else GEOMETRY_HISTORY_BIG:
+                        disp.set_n_threads(n if setting == "fixed" else "n")
+                        hist.append((setting, n))
+                        c0 = np.zeros(n + GUARD, dtype="i4")
+                        c1 = np.zeros(n + GUARD, dtype="i4")
+                        fl = np.zeros(8, dtype="i4")
+                        res.transitions += 1
+                        res.events["set_n_threads"] += 1
+                        try:
+                            if target == "opencl":
+                                kern(n=n, c0=FakeCLArray(c0), c1=FakeCLArray(c1), flags=FakeCLArray(fl))
+                            else:
+                                disp(n=n, c0=c0, c1=c1, flags=fl)
+                        except Exception as e:
+                            bad("C16.runs", "kernel-call-raises:" + type(e).__name__, sk, "%s after set_n_threads history %r: %r" % (label, hist, e), target=target, n=n, geometry_history=True)
+                            break
+                        r = check_counts(exp, n, c0, c1, fl, target, label + (" block=%d" % bs if bs else "") + " after set_n_threads history %r" % (hist,))
+                        if r:
+                            bad("C16." + r[0], r[0], sk, r[1], target=target, n=n, block=bs, geometry_history=True)
+                            break
+                        res.outcomes["ok-history:" + label] += 1
+                    disp.set_n_threads("n")
         res.cases = len(sks)
         res.states = res.nontrivial = len(sks)
         res.max_depth = 1
@@ -401,4 +449,11 @@ def run_shard(sks, tier, seed):
 
 
 def replay(case):
-    return run_shard([case["skeleton"]], "quick", 0).violations
+    out = []
+    for par in (0, 1):  # built with the argument name / with a fixed thread count
+        _PARITY[0] = par
+        try:
+            out += run_shard([case["skeleton"]], "quick", 0).violations
+        finally:
+            _PARITY[0] = 0
+    return out
